@@ -128,6 +128,7 @@ func (o *Out) Impl(format string, a ...interface{}) {
 	o.impl.WriteByte('\n')
 }
 func (o *Out) Count(k string) { o.Stats[k]++ }
+func (o *Out) CountN(k string, n int) { o.Stats[k] += int64(n) }
 func (o *Out) Fail(m MonFail) {
 	m.Op = o.nOps
 	o.Mon = append(o.Mon, m)
